@@ -3,7 +3,7 @@
 worktree of /repo (VC_REPO); record which obligation reports it.  Output: /verif/seeded/matrix.json"""
 import os, subprocess, json, glob, re, sys
 V = "/verif"; WT = "/tmp/wt/seedtest"
-RELATED = {"C19-A": ["C01"], "C03-B": ["C16", "C01"], "C01-B": ["C10"], "C04-A": ["C01"], "C12-B": ["C09"], "C02-B": ["C10"], "C08-A": ["C02"], "C05-A": ["C03"], "C11-B": ["C13"], "C07-B": ["C13"], "C07-A": ["C13"]}
+RELATED = {}     # only the target property's own quick check is run
 def main():
     head = subprocess.check_output(["git", "-C", "/repo", "rev-parse", "HEAD"], text=True).strip()
     if not os.path.isdir(WT): subprocess.call("git -C /repo worktree add --detach %s HEAD" % WT, shell=True)
